@@ -349,7 +349,7 @@ SCHED_RELY_FIELDS = ['_state', '_exception', '_result', '$finished_vt', '_runnin
 # everything a run of a scheduler may write (its own effects + those of the contracts it calls)
 RUN_MODIFIES = ['_state', '_exception', '_result', '$finished_vt', '_running', '$cancel_req', '$cancel_vt',
                 '$alive', '$shut', '$sd_of', '$wjob', '$twin', '$created_vt', '_job', '_task',
-                '_did_shutdown', '_expiration', '_failed_critical', '_failed_timeout', '_sched_id', '_s_mark',
+                '_did_shutdown', '_expiration', '_failed_critical', '_failed_timeout', '_sched_id', '$idnum', '_s_mark',
                 '_s_successors', '$elems', '$setowner', '$setrole', '$llen', '$lat', 'queue', '$qmax',
                 'jobs_window', '$ycount', '$ypos']
 
@@ -555,8 +555,8 @@ c.loop(0, inv=[
 ])
 
 # ---------------------------------------------------------------- _set_sched_ids (contract assumed for now)
-c = contract('PureScheduler._set_sched_ids', None, kind='env').param('self').param('start', 'int', 1) \
+c = contract('PureScheduler._set_sched_ids/frame-only', None, kind='env').param('self').param('start', 'int', 1) \
     .param('id_format', 'ref', None).returns('int')
-c.assumed = ['ASSUMED-CONTRACT PureScheduler._set_sched_ids: writes only _sched_id/_s_mark (and the generator ghost) of the '
+c.assumed = ['ASSUMED-CONTRACT PureScheduler._set_sched_ids as used by co_run (its verified contract in c_ids.py needs the tree vocabulary co_run does not carry): writes only _sched_id/_s_mark (and the generator ghost) of the '
              'objects of the tree and does not raise on an acyclic closed tree (numbering is decided under C15/C20)']
-c.modifies('_sched_id', '_s_mark', '$ycount', '$ypos')
+c.modifies('_sched_id', '$idnum', '_s_mark', '$ycount', '$ypos')
